@@ -1,0 +1,128 @@
+//go:build verif
+
+package dilithium
+
+// Verification hooks (build tag "verif"): exported aliases of unexported arithmetic,
+// sampling and packing functions. Nothing here is compiled into a normal build.
+
+func VerifMontgomeryReduce(a int64) int32 { return montgomeryReduce(a) }
+func VerifReduce32(a int32) int32         { return reduce32(a) }
+func VerifCAddQ(a int32) int32            { return cAddQ(a) }
+
+func VerifPower2Round(a int32) (a1, a0 int32) { a1 = power2Round(&a0, a); return }
+func VerifDecompose(a int32) (a1, a0 int32)   { a1 = decompose(&a0, a); return }
+func VerifMakeHint(a0, a1 int32) uint         { return makeHint(a0, a1) }
+func VerifUseHint(a int32, hint int) int32    { return useHint(a, hint) }
+
+func VerifNTT(a *[N]int32)          { ntt(a) }
+func VerifInvNTTToMont(a *[N]int32) { invNTTToMont(a) }
+func VerifPointwise(c, a, b *[N]int32) {
+	var pc poly
+	polyPointWiseMontgomery(&pc, &poly{*a}, &poly{*b})
+	*c = pc.coeffs
+}
+func VerifPolyReduce(a *[N]int32) { p := poly{*a}; polyReduce(&p); *a = p.coeffs }
+func VerifPolyCAddQ(a *[N]int32)  { p := poly{*a}; polyCAddQ(&p); *a = p.coeffs }
+func VerifPolyChkNorm(a *[N]int32, b int32) int {
+	return polyChkNorm(&poly{*a}, b)
+}
+
+func VerifRejUniform(a []int32, buf []uint8) uint32 { return rejUniform(a, buf) }
+func VerifRejEta(a []int32, buf []uint8) uint32     { return rejEta(a, buf) }
+
+func VerifPolyUniform(seed *[SeedBytes]uint8, nonce uint16) (out [N]int32, err error) {
+	var p poly
+	err = polyUniform(&p, seed, nonce)
+	return p.coeffs, err
+}
+func VerifPolyUniformEta(seed *[CRHBytes]uint8, nonce uint16) (out [N]int32, err error) {
+	var p poly
+	err = polyUniformEta(&p, seed, nonce)
+	return p.coeffs, err
+}
+func VerifPolyUniformGamma1(seed [CRHBytes]uint8, nonce uint16) [N]int32 {
+	var p poly
+	polyUniformGamma1(&p, seed, nonce)
+	return p.coeffs
+}
+func VerifPolyChallenge(seed []uint8) (out [N]int32, err error) {
+	var p poly
+	err = polyChallenge(&p, seed)
+	return p.coeffs, err
+}
+
+func VerifPolyEtaPack(r []uint8, a *[N]int32) { polyEtaPack(r, &poly{*a}) }
+func VerifPolyT1Pack(r []uint8, a *[N]int32)  { polyT1Pack(r, &poly{*a}) }
+func VerifPolyT0Pack(r []uint8, a *[N]int32)  { polyT0Pack(r, &poly{*a}) }
+func VerifPolyZPack(r []uint8, a *[N]int32)   { polyZPack(r, &poly{*a}) }
+func VerifPolyW1Pack(r []uint8, a *[N]int32)  { polyW1Pack(r, &poly{*a}) }
+
+func VerifPolyEtaUnpack(a []uint8) [N]int32 { var p poly; polyEtaUnpack(&p, a); return p.coeffs }
+func VerifPolyT1Unpack(a []uint8) [N]int32  { var p poly; polyT1Unpack(&p, a); return p.coeffs }
+func VerifPolyT0Unpack(a []uint8) [N]int32  { var p poly; polyT0Unpack(&p, a); return p.coeffs }
+func VerifPolyZUnpack(a []uint8) [N]int32   { var p poly; polyZUnpack(&p, a); return p.coeffs }
+
+func verifVecK(v *[K][N]int32) *polyVecK {
+	var o polyVecK
+	for i := 0; i < K; i++ {
+		o.vec[i].coeffs = v[i]
+	}
+	return &o
+}
+func verifVecL(v *[L][N]int32) *polyVecL {
+	var o polyVecL
+	for i := 0; i < L; i++ {
+		o.vec[i].coeffs = v[i]
+	}
+	return &o
+}
+func verifArrK(v *polyVecK) (o [K][N]int32) {
+	for i := 0; i < K; i++ {
+		o[i] = v.vec[i].coeffs
+	}
+	return
+}
+func verifArrL(v *polyVecL) (o [L][N]int32) {
+	for i := 0; i < L; i++ {
+		o[i] = v.vec[i].coeffs
+	}
+	return
+}
+
+func VerifPackSig(c []uint8, z *[L][N]int32, h *[K][N]int32) (sig [CryptoBytes]uint8, err error) {
+	err = packSig(sig[:], c, verifVecL(z), verifVecK(h))
+	return
+}
+func VerifUnpackSig(sig [CryptoBytes]uint8) (c [SeedBytes]uint8, z [L][N]int32, h [K][N]int32, rc int) {
+	var pz polyVecL
+	var ph polyVecK
+	rc = unpackSig(&c, &pz, &ph, sig)
+	return c, verifArrL(&pz), verifArrK(&ph), rc
+}
+func VerifPackPk(rho [SeedBytes]uint8, t1 *[K][N]int32) (pk [CryptoPublicKeyBytes]uint8) {
+	packPk(&pk, rho, verifVecK(t1))
+	return
+}
+func VerifUnpackPk(pk *[CryptoPublicKeyBytes]uint8) (rho [SeedBytes]uint8, t1 [K][N]int32) {
+	var v polyVecK
+	unpackPk(&rho, &v, pk)
+	return rho, verifArrK(&v)
+}
+func VerifPackSk(rho, tr, key [SeedBytes]uint8, t0 *[K][N]int32, s1 *[L][N]int32, s2 *[K][N]int32) (sk [CryptoSecretKeyBytes]uint8) {
+	packSk(&sk, rho, tr, key, verifVecK(t0), verifVecL(s1), verifVecK(s2))
+	return
+}
+func VerifUnpackSk(sk *[CryptoSecretKeyBytes]uint8) (rho, tr, key [SeedBytes]uint8, t0 [K][N]int32, s1 [L][N]int32, s2 [K][N]int32) {
+	var vt0, vs2 polyVecK
+	var vs1 polyVecL
+	unpackSk(&rho, &tr, &key, &vt0, &vs1, &vs2, sk)
+	return rho, tr, key, verifArrK(&vt0), verifArrL(&vs1), verifArrK(&vs2)
+}
+
+// VerifSignWithSK runs the signing routine on an arbitrary packed secret key.
+func VerifSignWithSK(msg []uint8, sk *[CryptoSecretKeyBytes]uint8) ([]uint8, error) {
+	return cryptoSign(msg, sk, false)
+}
+
+// VerifZetas returns a copy of the twiddle-factor table.
+func VerifZetas() [N]int32 { return zetas }
